@@ -248,6 +248,13 @@ struct SrvCase {
     searches: Vec<(u64, u64, Vec<F>)>, // (start, page size, search filters): paged until next = null
     lookups: Vec<(String, u64)>,       // ("index"|"time", value)
     pred: Value,                       // TLC's prediction (drift statistics only)
+    extreme: bool,                     // extreme numeric parameters: runs alone on a dedicated server process (restarted if it dies)
+}
+
+/// numbers in trace events are saturated at 2e9 (TLC integers are 32 bit; every log is far shorter / earlier, so all the
+/// comparisons the contract makes are preserved)
+fn sat(x: u64) -> u64 {
+    std::cmp::min(x, 2_000_000_000)
 }
 
 fn msg_rec(i: u32, rx_us: u64, ts_dms: u32, e: u32, a: u32, c: u32, mc: u8, text: &str) -> Value {
@@ -412,13 +419,13 @@ fn run_srv_case(port: u16, case: usize, cs: &SrvCase, logs: &[LogFile], logline:
                 break 'run;
             }
         };
-        s.evs.push(json!({"ev":"ok_stream","id":id,"kind":cs.kind,"filt":f_abs(&cs.filt),"win":[cs.win.0, cs.win.1],"parsed":parsed}));
+        s.evs.push(json!({"ev":"ok_stream","id":id,"kind":cs.kind,"filt":f_abs(&cs.filt),"win":[sat(cs.win.0), sat(cs.win.1)],"parsed":parsed}));
         let change = |s: &mut Sess, id: &mut u64, w: (u64, u64)| -> bool {
             let r = s.cmd(&format!("stream_change_window {} {},{}", id, w.0, w.1));
             match r.as_deref().and_then(parse_ok_json) {
                 Some((old, v)) if v["id"].is_u64() => {
                     let new = v["id"].as_u64().unwrap();
-                    s.evs.push(json!({"ev":"ok_change","old":old,"id":new,"win":[v["window"][0].as_u64().unwrap_or(0), v["window"][1].as_u64().unwrap_or(0)]}));
+                    s.evs.push(json!({"ev":"ok_change","old":old,"id":new,"win":[sat(v["window"][0].as_u64().unwrap_or(0)), sat(v["window"][1].as_u64().unwrap_or(0))]}));
                     *id = new;
                     true
                 }
@@ -470,7 +477,7 @@ fn run_srv_case(port: u16, case: usize, cs: &SrvCase, logs: &[LogFile], logline:
                     match r.as_deref().and_then(parse_ok_json) {
                         Some((_, v)) if v["search_idxs"].is_array() => {
                             let next = v["next_search_idx"].as_i64().unwrap_or(-1);
-                            s.evs.push(json!({"ev":"ok_search","id":id,"start":st,"max":max,"filt":f_abs(sf),"idxs":v["search_idxs"],"next":next}));
+                            s.evs.push(json!({"ev":"ok_search","id":id,"start":sat(st),"max":sat(*max),"filt":f_abs(sf),"idxs":v["search_idxs"],"next":next}));
                             if next < 0 {
                                 break;
                             }
@@ -484,7 +491,17 @@ fn run_srv_case(port: u16, case: usize, cs: &SrvCase, logs: &[LogFile], logline:
                 }
             }
             for (key, val) in &cs.lookups {
-                let arg = if key == "index" { format!("index={}", val) } else { format!("time_ms={}", BASE_US / 1000 + val) };
+                // "time": ms relative to the base of the logs; "time_abs": the absolute value as sent (recorded relative, saturated)
+                let arg = match key.as_str() {
+                    "index" => format!("index={}", val),
+                    "time" => format!("time_ms={}", BASE_US / 1000 + val),
+                    "time_abs" => format!("time_ms={}", val),
+                    k => panic!("lookup key {}", k),
+                };
+                let (key, val) = match key.as_str() {
+                    "time_abs" => ("time", sat(val.saturating_sub(BASE_US / 1000))),
+                    k => (k, sat(*val)),
+                };
                 let r = s.cmd(&format!("stream_binary_search {} {}", id, arg));
                 match r.as_deref().and_then(parse_ok_json) {
                     Some((_, v)) if v["filtered_msg_index"].is_u64() => {
@@ -665,6 +682,7 @@ fn srv_main(a: &Args) {
                 searches: v["search"].as_array().map(|a| a.iter().map(|s| (s[0].as_u64().unwrap(), s[1].as_u64().unwrap(), sf.clone())).collect()).unwrap_or_default(),
                 lookups: v["lookups"].as_array().map(|a| a.iter().map(|s| (s[0].as_str().unwrap().to_string(), s[1].as_u64().unwrap())).collect()).unwrap_or_default(),
                 pred: v["pred"].clone(),
+                extreme: false,
             });
         }
     }
@@ -730,6 +748,7 @@ fn srv_main(a: &Args) {
             searches,
             lookups,
             pred: Value::Null,
+            extreme: false,
         });
     }
     // (C) windows of tens of thousands of messages on a big uniform log (more than any per-iteration limit of the server
@@ -748,7 +767,7 @@ fn srv_main(a: &Args) {
         let none = vec![lit("pos", true, "", "NONE", "")];
         let mk = |kind: &str, late: bool, filt: &Vec<F>, win: (u64, u64), changes: Vec<(u64, u64)>| SrvCase {
             src: "big".into(), log: li, kind: kind.into(), late, paused_query: false, filt: filt.clone(), win, early_change: None, changes,
-            searches: vec![], lookups: vec![], pred: Value::Null,
+            searches: vec![], lookups: vec![], pred: Value::Null, extreme: false,
         };
         cases.push(mk("query", true, &vec![], (0, n_big), vec![]));
         cases.push(mk("query", true, &all, (0, n_big + 10), vec![]));
@@ -756,6 +775,34 @@ fn srv_main(a: &Args) {
         cases.push(mk("stream", false, &all, (100, n_big), vec![(0, n_big)]));
         cases.push(mk("query", true, &none, (0, n_big), vec![]));
         cases.push(mk("query", true, &all, (n_big / 2, n_big), vec![]));
+    }
+    // (D) numeric extreme classes for every numeric parameter (window start / end, start_idx, max_results, index, time_ms) on the
+    //     small log (if present): three sessions per class so that a command that kills the connection (or the process)
+    //     hides as little as possible; malformed numbers (negative, float, 1e19) are left to C15 (their meaning is undefined)
+    if a.has("--extremes") && n_logs > 0 {
+        let li = first_big;
+        let n = logs[li].msgs.len() as u64;
+        let t_last = BASE_US / 1000 + logs[li].msgs.last().unwrap().t_ms;
+        let classes: Vec<(&str, u64, u64)> = vec![
+            // (name, value as count/position/index, value as absolute time in ms)
+            ("0", 0, 0), ("small", 3, 3), ("len-1", n - 1, t_last - 1), ("len", n, t_last), ("len+1", n + 1, t_last + 1),
+            ("u32max", u32::MAX as u64, u32::MAX as u64), ("u32max+1", u32::MAX as u64 + 1, u32::MAX as u64 + 1),
+            ("u64max/1000+1", u64::MAX / 1000 + 1, u64::MAX / 1000 + 1), ("2^62", 1 << 62, 1 << 62), ("u64max", u64::MAX, u64::MAX),
+        ];
+        let filt = vec![lit("pos", true, "ECUA", "", ""), lit("event", true, "", "", "CTIA")];
+        let sf = vec![lit("event", true, "", "APIA", "")];
+        for (name, v, t) in &classes {
+            let mk = |win: (u64, u64), changes: Vec<(u64, u64)>, searches: Vec<(u64, u64, Vec<F>)>, lookups: Vec<(String, u64)>, filt: &Vec<F>| SrvCase {
+                src: format!("extreme:{}", name), log: li, kind: "stream".into(), late: true, paused_query: false, filt: filt.clone(), win,
+                early_change: None, changes, searches, lookups, pred: Value::Null, extreme: true,
+            };
+            cases.push(mk((0, *v), vec![(*v, n + 5), (2, *v)], vec![(*v, 3, sf.clone())], vec![("index".into(), *v)], &filt));
+            cases.push(mk((*v, n + 5), vec![], vec![], vec![("time_abs".into(), *t)], &vec![]));
+            cases.push(mk((1, 4), vec![], vec![(0, *v, sf.clone())], vec![("time_abs".into(), *t)], &filt));
+            let mut q = mk((0, *v), vec![], vec![], vec![], &filt);
+            q.kind = "query".into();
+            cases.push(q);
+        }
     }
     if let Some(only) = a.get("--only-case") {
         let k: usize = only.parse().unwrap();
@@ -771,6 +818,9 @@ fn srv_main(a: &Args) {
         servers.push(Server::start(&adlt, &work, "c16-big", None));
     }
     let big_port = servers.last().unwrap().port;
+    const X_SERVERS: usize = 3; // sessions with extreme numeric parameters: one at a time per dedicated process
+    let xsrvs: Arc<Vec<Mutex<Option<(Server, u32)>>>> = Arc::new((0..X_SERVERS).map(|_| Mutex::new(None)).collect());
+    let xpanics: Arc<Mutex<Vec<(String, u64)>>> = Arc::new(Mutex::new(Vec::new()));
     // the logs go first into the trace: one `log` event per file; cases refer to its line number
     let mut t = Trace::create(&a.str("--out", "trace-srv.ndjson"));
     let mut logline = Vec::new();
@@ -797,10 +847,31 @@ fn srv_main(a: &Args) {
     for _w in 0..conns {
         let (cases, next, results, logs, logline, ports) = (cases.clone(), next.clone(), results.clone(), logs.clone(), logline.clone(), ports.clone());
         let _ = first_bigcase;
+        let (xsrvs, xpanics, adlt, work) = (xsrvs.clone(), xpanics.clone(), adlt.clone(), work.clone());
         threads.push(std::thread::spawn(move || loop {
             let k = next.fetch_add(1, Ordering::SeqCst);
             if k >= cases.len() {
                 break;
+            }
+            if cases[k].extreme {
+                let slot = k % X_SERVERS;
+                let mut g = xsrvs[slot].lock().unwrap();
+                let gen = g.as_ref().map(|x| x.1).unwrap_or(0);
+                if g.as_mut().map(|x| x.0.exited().is_some()).unwrap_or(true) {
+                    *g = Some((Server::start(&adlt, &work, &format!("c16-extreme-{}-{}", slot, gen + 1), None), gen + 1));
+                }
+                let sv = &mut g.as_mut().unwrap().0;
+                let mut evs = run_srv_case(sv.port, k, &cases[k], &logs, &logline);
+                std::thread::sleep(Duration::from_millis(20));
+                if let Some(st) = sv.exited() {
+                    evs.push(json!({"ev":"server_exit","status":st})); // the server PROCESS died during this session
+                }
+                let mut xp = xpanics.lock().unwrap();
+                for p in sv.panic_lines() {
+                    if let Some(e) = xp.iter_mut().find(|e| e.0 == p.0) { e.1 = std::cmp::max(e.1, p.1); } else { xp.push(p); }
+                }
+                results.lock().unwrap().push((k, evs));
+                continue;
             }
             let port = if logs[cases[k].log].big > 0 { big_port } else { ports[k % ports.len()] };
             let evs = run_srv_case(port, k, &cases[k], &logs, &logline);
@@ -874,6 +945,14 @@ fn srv_main(a: &Args) {
             panics.push(json!({"where": p.0, "count": p.1}));
         }
         s.stop();
+    }
+    for m in xsrvs.iter() {
+        if let Some((sv, _)) = m.lock().unwrap().as_mut() {
+            sv.stop();
+        }
+    }
+    for p in xpanics.lock().unwrap().iter() {
+        panics.push(json!({"where": p.0, "count": p.1}));
     }
     println!("{}", json!({"cases": res.len(), "lines": t.lines, "logs": logs.len(), "delivered": delivered, "frames": frames, "pages": pages,
         "lookups": lookups, "predicted": predicted, "drift": drift, "drift_delivery": drift_d, "drift_pages": drift_pages, "drift_lookups": drift_lk, "panics": panics, "server_exit": exited}));
